@@ -51,7 +51,9 @@ class QuadratureRule:
             This identifier is used to provide unique names to tables and symbols
             in generated code.
         """
-        return self.hash_obj.hexdigest()[-3:]
+        # NOTE: three hex digits collide for rules that can meet in one kernel
+        # (e.g. triangle, default scheme, degrees 15 and 26)
+        return self.hash_obj.hexdigest()[-8:]
 
 
 def create_quadrature_points_and_weights(
